@@ -147,3 +147,122 @@ Proof.
     + intros Hin. apply afind_some_keys in Hin. destruct Hin as [c Hc]. congruence.
     + apply afind_some_keys. eauto.
 Qed.
+
+(* ------------------------------------------------------------------ duplicates *)
+(* two normal copies of one target, both scraped three times: garbage collection of this cycle keeps exactly one - the
+   copy on the less loaded shard, with equal loads the one on the front shard - whatever the order of its walk *)
+Section Duplicate.
+Variables (o : opts) (active : list (N * N)) (kw kl : nat) (h : N) (cw cl : cstat).   (* kw: the winner, kl: the loser *)
+Hypothesis Hne : kw <> kl.
+Hypothesis Hact : is_active active h = true.
+Hypothesis Hcw : c_state cw = Normal /\ (min_wait <= c_times cw)%N.
+Hypothesis Hcl : c_state cl = Normal /\ (min_wait <= c_times cl)%N.
+
+Record DInv (q : plan) : Prop := {
+  di_nd : nodup_plan q;
+  di_ok : si_ok (nth_si q kw) = true /\ si_ok (nth_si q kl) = true;
+  di_win : afind h (scr_of (nth_si q kw)) = Some cw;
+  di_others : forall j, j <> kw -> j <> kl -> afind h (scr_of (nth_si q j)) = None;
+  di_lose : afind h (scr_of (nth_si q kl)) = Some cl \/ afind h (scr_of (nth_si q kl)) = None;
+  (* the winner: strictly less loaded, or equally loaded and in front *)
+  di_order : load_of o (nth_si q kw) < load_of o (nth_si q kl) \/
+             (load_of o (nth_si q kw) = load_of o (nth_si q kl) /\ (kw < kl)%nat);
+}.
+
+Lemma keep_winner q : DInv q -> gc_keep o active q kw h cw = true.
+Proof.
+  intros I. unfold gc_keep. rewrite Hact. cbn [negb]. destruct Hcw as [Hs Ht].
+  destruct (N.ltb_spec (c_times cw) min_wait); [reflexivity|].
+  apply negb_true_iff. apply not_true_iff_false. intros Hex. apply existsb_exists in Hex. destruct Hex as [j [_ Hj]].
+  apply andb_true_iff in Hj. destruct Hj as [Hj Hjust]. apply andb_true_iff in Hj. destruct Hj as [Hnj _].
+  apply negb_true_iff, Nat.eqb_neq in Hnj. unfold gc_justifies in Hjust.
+  destruct (Nat.eq_dec j kl) as [->|Hjl].
+  - destruct (di_lose q I) as [E|E]; rewrite E in Hjust; [|discriminate].
+    destruct Hcl as [Hls _]. rewrite Hs, Hls in Hjust. cbn in Hjust.
+    apply andb_true_iff in Hjust. destruct Hjust as [_ Hj2].
+    destruct (di_order q I) as [Hlt|[Heq Hlt]].
+    + apply orb_true_iff in Hj2. destruct Hj2 as [H1|H1].
+      * apply Z.ltb_lt in H1. lia.
+      * apply andb_true_iff in H1. destruct H1 as [H1 _]. apply Z.eqb_eq in H1. lia.
+    + apply orb_true_iff in Hj2. destruct Hj2 as [H1|H1].
+      * apply Z.ltb_lt in H1. lia.
+      * apply andb_true_iff in H1. destruct H1 as [_ H1]. apply Nat.ltb_lt in H1. lia.
+  - rewrite (di_others q I j Hnj Hjl) in Hjust. discriminate.
+Qed.
+
+Lemma drop_loser q : DInv q -> afind h (scr_of (nth_si q kl)) = Some cl -> gc_keep o active q kl h cl = false.
+Proof.
+  intros I E. unfold gc_keep. rewrite Hact. cbn [negb]. destruct Hcl as [Hs Ht].
+  destruct (N.ltb_spec (c_times cl) min_wait) as [Hlt|_]; [lia|].
+  apply negb_false_iff. apply existsb_exists. exists kw. split.
+  - apply In_indices. apply lt_of_ok. apply (di_ok q I).
+  - destruct (di_ok q I) as [-> _]. assert (En : Nat.eqb kw kl = false) by (apply Nat.eqb_neq; congruence).
+    rewrite En. cbn [negb andb]. unfold gc_justifies. rewrite (di_win q I). destruct Hcw as [Hs' Ht'].
+    assert (Hle : (min_wait <=? c_times cw)%N = true) by now apply N.leb_le.
+    rewrite Hle, Hs, Hs'. cbn [tstate_eqb andb orb].
+    destruct (di_order q I) as [Hlt|[Heq Hlt]].
+    + assert (H1 : (load_of o (nth_si q kw) <? load_of o (nth_si q kl)) = true) by now apply Z.ltb_lt. now rewrite H1.
+    + assert (H1 : (load_of o (nth_si q kw) =? load_of o (nth_si q kl)) = true) by now apply Z.eqb_eq.
+      assert (H2 : (kw <? kl)%nat = true) by now apply Nat.ltb_lt. rewrite H1, H2. now rewrite orb_true_r.
+Qed.
+
+Lemma load_gc_shard q j i : load_of o (nth_si (gc_shard o active q j) i) = load_of o (nth_si q i).
+Proof.
+  unfold load_of. destruct (gc_shard_flags o active q j i) as (_ & _ & -> & ->). reflexivity.
+Qed.
+
+Lemma gc_shard_DInv q j : DInv q -> DInv (gc_shard o active q j).
+Proof.
+  intros I. destruct (si_ok (nth_si q j)) eqn:Hokj; [|unfold gc_shard; now rewrite Hokj].
+  pose proof (lt_of_ok q j Hokj) as Hj.
+  destruct (di_ok q I) as [Hk Hk'].
+  constructor.
+  - apply gc_shard_nodup, I.
+  - split; [rewrite (proj1 (gc_shard_flags o active q j kw)) | rewrite (proj1 (gc_shard_flags o active q j kl))]; assumption.
+  - rewrite (scr_gc_shard o active q j kw Hj Hokj). destruct (Nat.eqb_spec j kw) as [->|]; [|apply I].
+    apply afind_filter_nodup; [apply (di_nd q I) | apply I | now apply keep_winner].
+  - intros i Hik Hik'. rewrite (scr_gc_shard o active q j i Hj Hokj). destruct (Nat.eqb_spec j i) as [->|]; [|now apply I].
+    destruct (afind h (filter _ _)) eqn:E; [|reflexivity].
+    apply afind_filter_some in E. destruct E as [v' E]. rewrite (di_others q I i Hik Hik') in E. discriminate.
+  - rewrite (scr_gc_shard o active q j kl Hj Hokj). destruct (Nat.eqb_spec j kl) as [->|]; [|apply I]. right.
+    destruct (afind h (filter _ _)) as [c|] eqn:E; [|reflexivity].
+    apply afind_filter_nodup_inv in E; [|apply (di_nd q I)]. destruct E as [E Hkeep]. cbn [fst snd] in Hkeep.
+    destruct (di_lose q I) as [E'|E']; rewrite E' in E; [|discriminate]. injection E as <-.
+    rewrite (drop_loser q I E') in Hkeep. discriminate.
+  - rewrite !load_gc_shard. apply I.
+Qed.
+
+Lemma gc_fold_resolves : forall l q, DInv q -> (In kl l \/ afind h (scr_of (nth_si q kl)) = None) ->
+  DInv (fold_left (gc_shard o active) l q) /\ afind h (scr_of (nth_si (fold_left (gc_shard o active) l q) kl)) = None.
+Proof.
+  induction l as [|j r IH]; intros q I H; cbn [fold_left].
+  - destruct H as [[]|H]. auto.
+  - apply IH; [now apply gc_shard_DInv|].
+    destruct (Nat.eq_dec j kl) as [->|Hjk].
+    + right. destruct (di_ok q I) as [_ Hk]. pose proof (lt_of_ok q kl Hk) as Hlt.
+      rewrite (scr_gc_shard o active q kl kl Hlt Hk), Nat.eqb_refl.
+      destruct (afind h (filter _ _)) as [c|] eqn:E; [|reflexivity].
+      apply afind_filter_nodup_inv in E; [|apply (di_nd q I)]. destruct E as [E Hkeep]. cbn [fst snd] in Hkeep.
+      destruct (di_lose q I) as [E'|E']; rewrite E' in E; [|discriminate]. injection E as <-.
+      rewrite (drop_loser q I E') in Hkeep. discriminate.
+    + destruct H as [[Hh|Hin]|Hnone]; [congruence | now left | right].
+      destruct (si_ok (nth_si q j)) eqn:Hokj; [|unfold gc_shard; now rewrite Hokj].
+      rewrite (scr_gc_shard o active q j kl (lt_of_ok q j Hokj) Hokj). apply Nat.eqb_neq in Hjk. now rewrite Hjk.
+Qed.
+
+Theorem gc_resolves_duplicate p :
+  nodup_plan p ->
+  si_ok (nth_si p kw) = true -> si_ok (nth_si p kl) = true ->
+  afind h (scr_of (nth_si p kw)) = Some cw -> afind h (scr_of (nth_si p kl)) = Some cl ->
+  (forall j, j <> kw -> j <> kl -> afind h (scr_of (nth_si p j)) = None) ->
+  (load_of o (nth_si p kw) < load_of o (nth_si p kl) \/
+   (load_of o (nth_si p kw) = load_of o (nth_si p kl) /\ (kw < kl)%nat)) ->
+  afind h (scr_of (nth_si (gc o active p) kw)) = Some cw /\ afind h (scr_of (nth_si (gc o active p) kl)) = None.
+Proof.
+  intros Hnd Hk Hk' Ew El Ho Hord.
+  assert (I : DInv p) by (constructor; auto).
+  destruct (gc_fold_resolves (indices p) p I) as [I' Hn].
+  - left. apply In_indices. now apply lt_of_ok.
+  - split; [apply I' | exact Hn].
+Qed.
+End Duplicate.
